@@ -1006,4 +1006,165 @@ theorem all (hT : T.Sane) : ∀ n, All T n
   | 0 => all_zero T hT
   | n + 1 => all_succ T hT n (all hT n)
 
+/-! ### soundness, tokens: a successful parse consumed exactly the printing of its result -/
+/-- every successful parse consumed exactly the printing of the tree it returns -/
+structure Snd (f : Nat) : Prop where
+  atOp : ∀ base cut ts e rest, atOp T f base cut ts = some (e, rest) → ∃ mid, ts = mid ++ rest ∧ pp T e = pp T base ++ mid
+  linkP : ∀ ts l rest, linkP T f ts = some (l, rest) → ts = ltoks T l ++ rest
+  inner : ∀ next prev ts e rest, inner T f next prev ts = some (e, rest) → ∃ mid, ts = mid ++ rest ∧ pp T e = pp T next ++ mid
+  nary : ∀ cut ts e rest, nary T f cut ts = some (e, rest) → ts = pp T e ++ rest
+  cast : ∀ ts e rest, cast T f ts = some (e, rest) → ts = pp T e ++ rest
+  unary : ∀ ts e rest, unary T f ts = some (e, rest) → ts = pp T e ++ rest
+  postf : ∀ e0 ts e rest, postf T f e0 ts = some (e, rest) → ∃ mid, ts = mid ++ rest ∧ pp T e = pp T e0 ++ mid
+  args : ∀ ts as rest, args T f ts = some (as, rest) → as ≠ [] ∧ ts = ppArgs T as ++ rest
+
+theorem snd_zero : Snd T 0 := by
+  constructor <;> intros <;> simp_all [atOp, linkP, inner, nary, cast, unary, postf, args]
+
+theorem pp_mk (l : Link) (a b : E) : pp T (l.mk a b) = pp T a ++ (ltoks T l ++ pp T b) := by
+  cases l <;> simp [Link.mk, pp, ltoks]
+
+theorem snd_succ (hc : ∀ o, T.comma o = true → o = T.commaTok) (f : Nat) (ih : Snd T f) : Snd T (f + 1) := by
+  constructor
+  · intro base cut ts e rest h
+    simp only [atOp] at h
+    split at h
+    · simp at h; obtain ⟨rfl, rfl⟩ := h; exact ⟨[], by simp, by simp⟩
+    · split at h
+      · split at h
+        · simp at h
+        · rename_i l r0 hl
+          split at h
+          · simp at h
+          · rename_i nx r1 hc1
+            split at h
+            · simp at h
+            · rename_i nx' r2 hi
+              split at h
+              · simp at h
+              · have h1 := ih.linkP _ _ _ hl
+                have h2 := ih.cast _ _ _ hc1
+                obtain ⟨m3, h3, h3'⟩ := ih.inner _ _ _ _ _ hi
+                obtain ⟨m4, h4, h4'⟩ := ih.atOp _ _ _ _ _ h
+                refine ⟨ltoks T l ++ (pp T nx ++ m3) ++ m4, ?_, ?_⟩
+                · rw [h1, h2, h3, h4]; simp
+                · rw [h4', pp_mk, h3']; simp
+      · simp at h; obtain ⟨rfl, rfl⟩ := h; exact ⟨[], by simp, by simp⟩
+  · intro ts l rest h
+    simp only [linkP] at h
+    split at h
+    · simp at h; obtain ⟨rfl, rfl⟩ := h; simp [ltoks]
+    · simp at h; obtain ⟨rfl, rfl⟩ := h; simp [ltoks]
+    · split at h
+      · rename_i m r0 hn
+        simp at h; obtain ⟨rfl, rfl⟩ := h
+        have := ih.nary _ _ _ _ hn
+        simp [ltoks, this]
+      · simp at h
+    · simp at h
+  · intro next prev ts e rest h
+    simp only [inner] at h
+    split at h
+    · split at h
+      · rename_i n' r' ha
+        obtain ⟨m1, h1, h1'⟩ := ih.atOp _ _ _ _ _ ha
+        obtain ⟨m2, h2, h2'⟩ := ih.inner _ _ _ _ _ h
+        exact ⟨m1 ++ m2, by rw [h1, h2]; simp, by rw [h2', h1']; simp⟩
+      · simp at h
+    · simp at h; obtain ⟨rfl, rfl⟩ := h; exact ⟨[], by simp, by simp⟩
+  · intro cut ts e rest h
+    simp only [nary] at h
+    split at h
+    · rename_i e0 r hc1
+      have h1 := ih.cast _ _ _ hc1
+      obtain ⟨m2, h2, h2'⟩ := ih.atOp _ _ _ _ _ h
+      rw [h1, h2, h2']; simp
+    · simp at h
+  · intro ts e rest h
+    simp only [cast] at h
+    split at h
+    · split at h
+      · rename_i e0 r hc1
+        simp at h; obtain ⟨rfl, rfl⟩ := h
+        have h1 := ih.cast _ _ _ hc1
+        simp [pp, h1]
+      · simp at h
+    · simp at h
+    · exact ih.unary _ _ _ h
+  · intro ts e rest h
+    simp only [unary] at h
+    split at h
+    · split at h
+      · split at h
+        · rename_i e0 r hu
+          simp at h; obtain ⟨rfl, rfl⟩ := h
+          simp [pp, ih.unary _ _ _ hu]
+        · simp at h
+      · split at h
+        · rename_i e0 r hu
+          simp at h; obtain ⟨rfl, rfl⟩ := h
+          simp [pp, ih.cast _ _ _ hu]
+        · simp at h
+      · simp at h
+    · obtain ⟨m, h1, h1'⟩ := ih.postf _ _ _ _ h
+      rw [h1, h1']; simp [pp]
+    · split at h
+      · rename_i e0 r hn
+        have h0 := ih.nary _ _ _ _ hn
+        obtain ⟨m, h1, h1'⟩ := ih.postf _ _ _ _ h
+        rw [h0, h1, h1']; simp [pp]
+      · simp at h
+    · simp at h
+  · intro e0 ts e rest h
+    simp only [postf] at h
+    split at h
+    · split at h
+      · rename_i i r hn
+        have h0 := ih.nary _ _ _ _ hn
+        obtain ⟨m, h1, h1'⟩ := ih.postf _ _ _ _ h
+        exact ⟨.lb :: (pp T i ++ .rb :: m), by rw [h0, h1]; simp, by rw [h1']; simp [pp]⟩
+      · simp at h
+    · obtain ⟨m, h1, h1'⟩ := ih.postf _ _ _ _ h
+      exact ⟨.lp :: .rp :: m, by rw [h1]; simp, by rw [h1']; simp [pp, ppArgs]⟩
+    · split at h
+      · rename_i as r ha
+        obtain ⟨hne, h0⟩ := ih.args _ _ _ ha
+        obtain ⟨m, h1, h1'⟩ := ih.postf _ _ _ _ h
+        exact ⟨.lp :: (ppArgs T as ++ .rp :: m), by rw [h0, h1]; simp, by rw [h1']; simp [pp]⟩
+      · simp at h
+    · obtain ⟨m, h1, h1'⟩ := ih.postf _ _ _ _ h
+      rename_i d n r
+      exact ⟨.dot d :: .atom n :: m, by rw [h1]; simp, by rw [h1']; simp [pp]⟩
+    · simp at h
+    · split at h
+      · obtain ⟨m, h1, h1'⟩ := ih.postf _ _ _ _ h
+        rename_i o r _
+        exact ⟨.op o :: m, by rw [h1]; simp, by rw [h1']; simp [pp]⟩
+      · simp at h; obtain ⟨rfl, rfl⟩ := h; exact ⟨[], by simp, by simp⟩
+    · simp at h; obtain ⟨rfl, rfl⟩ := h; exact ⟨[], by simp, by simp⟩
+  · intro ts as rest h
+    simp only [args] at h
+    split at h
+    · simp at h
+    · rename_i a r hn
+      have h0 := ih.nary _ _ _ _ hn
+      split at h
+      · split at h
+        · split at h
+          · rename_i _ o r' hco _ as' r'' ha
+            simp at h; obtain ⟨rfl, rfl⟩ := h
+            obtain ⟨hne, h1⟩ := ih.args _ _ _ ha
+            refine ⟨by simp, ?_⟩
+            have := hc o hco; subst this
+            cases as' with
+            | nil => exact absurd rfl hne
+            | cons b bs => rw [h0, h1]; simp [ppArgs]
+          · simp at h
+        · simp at h; obtain ⟨rfl, rfl⟩ := h; exact ⟨by simp, by simp [ppArgs, h0]⟩
+      · simp at h; obtain ⟨rfl, rfl⟩ := h; exact ⟨by simp, by simp [ppArgs, h0]⟩
+
+theorem snd_all (hc : ∀ o, T.comma o = true → o = T.commaTok) : ∀ f, Snd T f
+  | 0 => snd_zero T
+  | f + 1 => snd_succ T hc f (snd_all hc f)
+
 end PsycheModel.Expr
